@@ -33,6 +33,14 @@ def run(tier, rep):
     c.build_harness()
     r, cases = pc.run_instance("C07", "errors", tier, invariants=["TypeOK", "Total", "Verdict"])
     pc.model_violation(rep, r)
+    # design-level half of "does not fail to terminate": under a fair environment every call returns (temporal property)
+    k = dict(pc.BASE)
+    k.update(pc.INSTANCES["errors"][0])
+    k["Emit"] = False
+    lr = c.run_tlc("MC_Parser", c.cfg_text(spec="MCFairSpec", constants=k, invariants=["TypeOK"], properties=["EveryCallReturns"]),
+                   "C07-liveness", defs=pc.INSTANCES["errors"][1]["quick"], coverage=False, timeout=900, workers=4)
+    pc.model_violation(rep, lr)
+    rep.add(liveness_states=lr.distinct)
     per = 60000 if tier == "quick" else 400000
     batches = 4 if tier == "quick" else 14
     limit = 300 if tier == "quick" else 1500
@@ -78,7 +86,26 @@ def run(tier, rep):
             rep.violation(m, "panic (%s, %s) on %s" % (m["how"], m["feed"], [d["text"][:80] for d in m["docs"]]))
     rep.add(evaluations=total, distinct_nontrivial=max(0, distinct - kinds.get("valid seed", 0)), rule=RULE,
             samples=[{"kinds": kinds}, {"outcomes": outcomes}] + pc.sample_cases(cases, 2),
-            states=r.distinct, transitions=r.generated, model_invariants=["Total", "Verdict"], batches=batches)
+            states=r.distinct, transitions=r.generated, model_invariants=["Total", "Verdict", "EveryCallReturns (temporal, WF)"], batches=batches)
+    # the trace monitor: hook steps of damaged documents under random reader configurations and chunk sizes must be steps
+    # of Parser.tla up to the failure; a Panic line has no action in the specification
+    trace = os.path.join(c.OUT, "traces", "C07-hooks.ndjson")
+    t = c.harness(["parser-record", "--seed", c.seed(), "--n", 250 if tier == "quick" else 4000, "--damage", 50, "--hostile", 1, "--out", trace])
+    cfg = c.cfg_text(spec="TSpec", constants=dict(HashOrder=False), invariants=["TypeOK", "StackWF"], postcondition="Accepted")
+    acc, rej, st = c.validate_trace("ParserTrace", trace, "C07-hooks", cfg=cfg, timeout=1500)
+    for x in rej:
+        e = x.get("event") or {}
+        if e.get("ev") == "Panic":
+            docs = [b for b in (x.get("run") or []) if b.get("ev") == "Begin"]
+            rep.violation({"kind": "hostile", "class": "panic", "how": "hook trace", "feed": "Whole",
+                           "docs": [{"text": d.get("doc"), "hex": d.get("hex"), "cfg": {}} for d in docs]},
+                          "panic while the hooks were recording: %s" % [d.get("doc", "")[:80] for d in docs])
+        elif x.get("invariant"):
+            rep.violation({"kind": "model", "module": "ParserTrace", "invariant": x["invariant"], "trace": x.get("error")},
+                          "invariant %s fails along a recorded execution" % x["invariant"])
+        else:
+            c.log("NOTE property=C07: hook trace line %s is not a step of Parser.tla (mechanism drift): %s" % (x.get("line"), str(e)[:200]))
+    rep.add(hook_events_validated=acc, hook_trace_calls=t["calls"])
     try:
         os.remove(cases)
     except OSError:
